@@ -826,6 +826,12 @@ func bigAlphabet(level int) []string {
 	return a
 }
 
+// lifecycleAlphabet: calls around one proposal by account 1 that account 0 can make pass (51% of 4500 = 2295)
+func lifecycleAlphabet() []string {
+	return []string{"vote 0 1 2295", "vote 0 1 2294", "vote 0 1 1", "vote 1 1 500", "timer 5", "timer 9", "thaw 1 1", "xfer 0 1 1",
+		"xfer 1 0 500", "xfer 0 0 100", "propose 0 60 5 0 0", "timer 0", "unlock P 1 1000 o", "lock T 0 705 t", "xfer 0 1 705", "vote 50 1 0"}
+}
+
 // enumerate all sequences of exactly 1..depth calls from alphabet after the given prefix
 func enumerate(out *xvlib.Out, prefix []string, alpha []string, depth int) {
 	var rec func(cur []string, d int)
@@ -1019,10 +1025,17 @@ func directedCase(r *xvlib.Rng) []string {
 		case c < 74:
 			a := holder()
 			amt := around(avail(a))
-			if r.Chance(1, 3) && s.supply != nil {
-				amt = around(*s.supply * 51 / 100) // around the vote threshold
+			pid := anyPid()
+			if r.Chance(1, 2) && s.supply != nil {
+				// the richest account votes around what is still missing to the (51%) threshold
+				for _, x := range have {
+					if avail(x) > avail(a) {
+						a = x
+					}
+				}
+				amt = around(*s.supply*51/100 - s.props[pid].votes)
 			}
-			push(fmt.Sprintf("vote %d %d %d", a, anyPid(), amt))
+			push(fmt.Sprintf("vote %d %d %d", a, pid, amt))
 		case c < 82:
 			pid := anyPid()
 			a := s.props[pid].proposer
@@ -1103,6 +1116,16 @@ func main() {
 		enumerate(out, []string{resetBig, "init 0"}, al, l.depth)
 		rules = append(rules, fmt.Sprintf("all sequences of <= %d proposal-level calls over %d calls (accounts 0:3000 1:1500, 2 and 50 fresh)", l.depth, len(al)))
 	}
+	lifeDepth := 3
+	if thorough {
+		lifeDepth = 4
+	}
+	for _, ok := range []string{"1", "0"} {
+		enumerate(out, []string{resetBig, "init 0", "propose 1 51 5 9 " + ok}, lifecycleAlphabet(), lifeDepth)
+		enumerate(out, []string{"reset 0:3000 1:1500 50:2500", "init 0", "propose 1 51 5 9 " + ok, "vote 50 1 1500"}, lifecycleAlphabet(), lifeDepth-1)
+		enumerate(out, []string{resetBig, "init 0", "propose 1 51 5 9 " + ok, "vote 0 1 2295", "timer 5"}, lifecycleAlphabet(), lifeDepth)
+	}
+	rules = append(rules, fmt.Sprintf("all sequences of <= %d calls over %d calls after a proposal that can pass (votes at threshold-1 / threshold, timers at stop and trigger heights, trigger target ok/failing)", lifeDepth, len(lifecycleAlphabet())))
 	// 3. random longer sequences (duplicated genesis entries, lower-case account, all callers)
 	rng := xvlib.NewRng(args.Seed)
 	for i := 0; i < nRandom; i++ {
